@@ -207,3 +207,16 @@ package goja
 //@   props C17
 //@   site copy#1 vars arg0 []byte, arg1 []byte, ta *typedArrayObject, data []byte
 //@   site copy#1 requires samearray(arg0, data) && sliceoff(arg0, data) >= specScale(ta.offset, ta.elemSize) && sliceoff(arg0, data) + min(len(arg0), len(arg1)) <= specScale(ta.offset+ta.length, ta.elemSize) [destination-inside-view]
+
+// TypedArray.prototype.set: besides the element accessors (swept above) the method takes the address of
+// the first source and destination byte to decide the copy direction; those two index expressions must
+// lie inside the buffers for every source, also an empty one.
+//@ func (*Runtime).typedArrayProto_set bounds
+//@   props C17
+//@   loop 1 invariant true [copy-loop]
+//@   loop 2 invariant true [copy-loop]
+//@   loop 3 invariant true [copy-loop]
+//@   loop 4 invariant true [copy-loop]
+//@   loop 5 invariant true [copy-loop]
+//@   loop 6 invariant true [copy-loop]
+//@   loop 7 invariant true [copy-loop]
